@@ -63,6 +63,25 @@ Fixpoint stream_of (rs : list rd) : bytes * rstat :=
                 end
   end.
 
+(* ---------- a stream whose connection is ended abruptly ---------- *)
+(* Conn.CloseConnection ends the whole QUIC connection at once: what was written but not yet
+   delivered to the reading application is discarded.  What the property still demands of the
+   reader's view: the bytes it was given are a prefix of the bytes written, and it is told
+   end-of-stream only if the writer closed and every written byte has been given to it;
+   otherwise its reads end with an error (or have not ended). *)
+Fixpoint is_prefix (a b : bytes) : bool :=
+  match a, b with
+  | [], _ => true
+  | x :: a', y :: b' => (x =? y) && is_prefix a' b'
+  | _ :: _, [] => false
+  end.
+Definition abort_ok (written : list call) (read : list rd) : bool :=
+  let '(d, e) := stream_of read in
+  match e with
+  | REof => beq_bytes d (writes_of written) && negb (Nat.eqb (closes_of written) 0)
+  | _ => is_prefix d (writes_of written)
+  end.
+
 (* ---------- the stream-open marker ---------- *)
 (* DialContext: qs.Write([]byte{0}) before the connection is handed to the application *)
 Definition dial_calls (app : list call) : list call := CWrite [0] :: app.
@@ -109,7 +128,11 @@ Inductive bridge_case :=
    client's choice): the client's Write/Close calls on its stream, and what Listener.Accept did:
    None = it returned an error (and receptor closed the connection), Some (d, e) = it returned a
    Conn from which the application read bytes d and then saw e *)
-| CAccept (written : list call) (obs : option (bytes * rstat)).
+| CAccept (written : list call) (obs : option (bytes * rstat))
+(* one direction of a real mesh stream whose writer ended the whole connection (CloseConnection)
+   right after its writes (and Close), with a slow reader or over faulty links: the writer's
+   calls and the reader's Read results *)
+| CAbort (written : list call) (read : list rd).
 
 Definition bridge_check (c : bridge_case) : bool :=
   match c with
@@ -125,4 +148,5 @@ Definition bridge_check (c : bridge_case) : bool :=
     | Accepted rest, Some (d, e') => let '(d0, e0) := stream_of rest in beq_bytes d0 d && beq_rstat e0 e'
     | _, _ => false
     end
+  | CAbort written read => abort_ok written read
   end.
